@@ -569,3 +569,66 @@ Lemma ex_takeover_code :
   exists s, run (ex_step true) ex_init (takeover_trace ++ [ODeliver 1]) = Some s /\
     map ecode (ex_calls s) = [2; 1] /\ ex_h s = OIdle.
 Proof. eexists. split; [vm_compute; reflexivity|]. split; reflexivity. Qed.
+
+(* ====================================================================== *)
+(* 4. The id a blocking call registers is the id on the wire               *)
+(* ====================================================================== *)
+
+Lemma find_id_bound attrs : forall k j v, find_id attrs k = Some (j, v) -> k <= j /\ j - k < length attrs.
+Proof.
+  induction attrs as [|a rest IH]; intros k j v H; cbn in H; [discriminate|].
+  destruct (is_id a).
+  - injection H as <- <-. cbn. lia.
+  - destruct (IH _ _ _ H). cbn. lia.
+Qed.
+
+Lemma find_id_set attrs : forall k j v w,
+  find_id attrs k = Some (j, v) -> find_id (set_val attrs (j - k) w) k = Some (j, w).
+Proof.
+  induction attrs as [|a rest IH]; intros k j v w H; cbn in H; [discriminate|].
+  destruct (is_id a) eqn:E.
+  - injection H as <- <-. rewrite Nat.sub_diag. cbn. unfold is_id in *. cbn. rewrite E. reflexivity.
+  - destruct (find_id_bound _ _ _ _ H) as [A _].
+    replace (j - k) with (S (j - S k)) by lia. cbn. rewrite E. apply (IH _ _ _ _ H).
+Qed.
+
+Lemma find_id_app_none attrs x : forall k,
+  find_id attrs k = None -> is_id x = true -> find_id (attrs ++ [x]) k = Some (k + length attrs, a_val x).
+Proof.
+  induction attrs as [|a rest IH]; intros k H E; cbn.
+  - rewrite E. rewrite Nat.add_0_r. reflexivity.
+  - cbn in H. destruct (is_id a); [discriminate|]. rewrite (IH _ H E). f_equal. f_equal. lia.
+Qed.
+
+(* the code: the registration key is the id the peer sees, and it is not empty *)
+Lemma key_is_wire_id attrs fresh fresh2 :
+  fresh <> 0%N ->
+  let (key, wire) := send_ids GenWhenEmpty attrs fresh fresh2 in key = wire /\ key <> 0%N.
+Proof.
+  intro F. unfold send_ids, complete_id.
+  destruct (find_id attrs 0) as [[k v]|] eqn:E.
+  - destruct (N.eqb v 0) eqn:Ev.
+    + pose proof (find_id_set attrs 0 k v fresh E) as S. rewrite Nat.sub_0_r in S.
+      unfold encoder_id, wire_id. rewrite S. destruct (N.eqb fresh 0) eqn:Ef; [apply N.eqb_eq in Ef; congruence|].
+      rewrite S. auto.
+    + unfold encoder_id, wire_id. rewrite E, Ev, E. split; [reflexivity|]. intro X. rewrite X in Ev. discriminate.
+  - pose proof (find_id_app_none attrs (mkattr 0 1 fresh) 0 E eq_refl) as S. cbn in S.
+    unfold encoder_id, wire_id. rewrite S. destruct (N.eqb fresh 0) eqn:Ef; [apply N.eqb_eq in Ef; congruence|].
+    rewrite S. auto.
+Qed.
+
+(* a caller-chosen id is kept *)
+Lemma chosen_id_is_kept attrs fresh fresh2 k v :
+  find_id attrs 0 = Some (k, v) -> v <> 0%N -> send_ids GenWhenEmpty attrs fresh fresh2 = (v, v).
+Proof.
+  intros E V. unfold send_ids, complete_id. rewrite E.
+  destruct (N.eqb v 0) eqn:Ev; [apply N.eqb_eq in Ev; congruence|].
+  unfold encoder_id, wire_id. rewrite E, Ev, E. reflexivity.
+Qed.
+
+(* what the table lemma excludes: an id generated only when the attribute is
+   absent: with id="" the call registers the empty id while the encoder puts a
+   fresh one on the wire *)
+Lemma absent_only_breaks_empty_id :
+  send_ids GenWhenAbsent (id_shape 1 0) 1000 2000 = (0%N, 2000%N).
+Proof. vm_compute. reflexivity. Qed.
